@@ -1,3 +1,133 @@
-import Mwp.Model.Relation
+/-
+  C13 — The shared constants ZERO (`Polynomial('o')`) and UNIT (`Polynomial('m')`) are never changed.
+  Python object identity is not modelled; what is proved is the value-level fact that makes every
+  aliasing harmless: the two loop corrections rewrite monomials in place (same positions, same
+  delta lists) and only ever write to a monomial whose scalar is `p`/`w` (while) resp. a diagonal
+  monomial whose scalar is not `m` (for), and no diagonal cell that a correction walks after a
+  fixpoint contains a monomial with scalar `o`.  So no write lands on a monomial holding ZERO's
+  scalar `o` or UNIT's scalar `m`, whatever is aliased with whatever.
+  Property theorems only; the work is in Mwp/Lemmas/WriteSet.lean.
+-/
+import Mwp.Lemmas.WriteSet
 namespace Mwp.Props.C13
+open Mwp
+
+/-- the while correction rewrites a polynomial monomial by monomial, in place (same length, same
+    delta lists); a monomial is changed only if its scalar was `p`, or `w` on the diagonal -/
+theorem while_correction_write_set (diag : Bool) (p p' : Poly) (g g' : DG.Graph)
+    (h : Relation.whileFixPoly diag p g = .ok (p', g')) :
+    p'.length = p.length ∧ ∀ k (hk : k < p.length) (hk' : k < p'.length),
+      p'[k].deltas = p[k].deltas ∧
+      (p'[k] ≠ p[k] →
+        (p[k].scalar = .p ∨ (diag = true ∧ p[k].scalar = .w)) ∧ p'[k].scalar = .i) :=
+  WriteSet.whileFixPoly_write_set diag p p' g g' h
+
+example : Relation.whileFixPoly true
+    [⟨.o, []⟩, ⟨.m, [(0, 0)]⟩, ⟨.w, [(1, 0)]⟩, ⟨.p, [(2, 0)]⟩, ⟨.i, [(0, 1)]⟩] [] =
+    .ok ([⟨.o, []⟩, ⟨.m, [(0, 0)]⟩, ⟨.i, [(1, 0)]⟩, ⟨.i, [(2, 0)]⟩, ⟨.i, [(0, 1)]⟩],
+      [(1, [([(1, 0)], [([(2, 0)], 0)]), ([(2, 0)], [([(1, 0)], 0)])])]) := by rfl
+example : Relation.whileFixPoly false
+    [⟨.o, []⟩, ⟨.m, [(0, 0)]⟩, ⟨.w, [(1, 0)]⟩, ⟨.p, [(2, 0)]⟩, ⟨.i, [(0, 1)]⟩] [] =
+    .ok ([⟨.o, []⟩, ⟨.m, [(0, 0)]⟩, ⟨.w, [(1, 0)]⟩, ⟨.i, [(2, 0)]⟩, ⟨.i, [(0, 1)]⟩],
+      [(1, [([(2, 0)], [])])]) := by rfl
+
+/-- … in particular monomials carrying ZERO's scalar `o` or UNIT's scalar `m` are never written -/
+theorem while_correction_spares_constants (diag : Bool) (p p' : Poly) (g g' : DG.Graph)
+    (h : Relation.whileFixPoly diag p g = .ok (p', g'))
+    (k : Nat) (hk : k < p.length) (hk' : k < p'.length)
+    (hs : p[k].scalar = .o ∨ p[k].scalar = .m) : p'[k] = p[k] := by
+  refine Classical.byContradiction fun hne => ?_
+  obtain ⟨h1, _⟩ := ((while_correction_write_set diag p p' g g' h).2 k hk hk').2 hne
+  rcases hs with hs | hs <;> rw [hs] at h1 <;> rcases h1 with h1 | ⟨_, h1⟩ <;> cases h1
+
+/-- the for correction changes the scalar of a walked monomial only on the diagonal and only if
+    it was not `m` -/
+theorem loop_correction_write_set (diag : Bool) (p ell : Poly) (g : DG.Graph) (p' ell' : Poly)
+    (g' : DG.Graph) (h : Relation.loopFixCell diag p ell g = .ok (p', ell', g')) :
+    p'.length = p.length ∧ ∀ k (hk : k < p.length) (hk' : k < p'.length),
+      p'[k].deltas = p[k].deltas ∧
+      (p'[k] ≠ p[k] → diag = true ∧ p[k].scalar ≠ .m ∧ p'[k].scalar = .i) :=
+  WriteSet.loopFixCell_write_set diag p ell g p' ell' g' h
+
+-- on the diagonal a monomial with scalar `o` WOULD be written: this is why the next theorem matters
+example : Relation.loopFixCell true
+    [⟨.o, []⟩, ⟨.m, [(0, 0)]⟩, ⟨.w, [(1, 0)]⟩, ⟨.p, [(2, 0)]⟩] [⟨.m, []⟩] [] =
+    .ok ([⟨.i, []⟩, ⟨.m, [(0, 0)]⟩, ⟨.i, [(1, 0)]⟩, ⟨.i, [(2, 0)]⟩], [⟨.m, []⟩],
+      [(0, [([], [])]), (1, [([(1, 0)], [([(2, 0)], 0)]), ([(2, 0)], [([(1, 0)], 0)])])]) := by rfl
+example : Relation.loopFixCell false
+    [⟨.o, []⟩, ⟨.m, [(0, 0)]⟩, ⟨.w, [(1, 0)]⟩, ⟨.p, [(2, 0)]⟩] [⟨.m, []⟩] [] =
+    .ok ([⟨.o, []⟩, ⟨.m, [(0, 0)]⟩, ⟨.w, [(1, 0)]⟩, ⟨.p, [(2, 0)]⟩],
+      [⟨.m, []⟩, ⟨.p, [(2, 0)]⟩], []) := by rfl
+
+/-- diagonal cells of a fixpoint result contain no monomial with scalar `o` -/
+theorem fixpoint_diagonal_no_zero (r f : Relation) (h : r.WF) (hf : Relation.fixpoint r = .ok f)
+    (i : Nat) (hi : i < r.vars.length) : ∀ m ∈ Matrix.get f.mat i i, m.scalar ≠ .o :=
+  ((WriteSet.fixpoint_cells r f h hf).2.2.2 i hi).1
+
+/-- non-vacuity: a well-formed two-variable relation and its fixpoint -/
+def rEx : Relation :=
+  ⟨["x", "y"], [[[⟨.m, []⟩], [⟨.w, [(0, 0)]⟩, ⟨.p, [(1, 0)]⟩]], [[⟨.p, [(2, 1)]⟩], [⟨.m, []⟩]]]⟩
+def fEx : Relation :=
+  ⟨["x", "y"],
+    [[[⟨.m, []⟩, ⟨.p, [(0, 0), (2, 1)]⟩, ⟨.p, [(1, 0), (2, 1)]⟩],
+      [⟨.w, [(0, 0)]⟩, ⟨.p, [(0, 0), (2, 1)]⟩, ⟨.p, [(1, 0)]⟩]],
+     [[⟨.p, [(2, 1)]⟩],
+      [⟨.m, []⟩, ⟨.p, [(0, 0), (2, 1)]⟩, ⟨.p, [(1, 0), (2, 1)]⟩]]]⟩
+theorem rEx_wf : rEx.WF := ⟨by decide, by decide, by decide, by decide, by decide⟩
+theorem rEx_fixpoint : Relation.fixpoint rEx = .ok fEx := by rfl
+
+example : ∀ m ∈ Matrix.get fEx.mat 1 1, m.scalar ≠ .o :=
+  fixpoint_diagonal_no_zero rEx fEx rEx_wf rEx_fixpoint 1 (by decide)
+
+/-- Hence a correction applied to a fixpoint result never writes to a monomial whose scalar is
+    ZERO's (`o`) or UNIT's (`m`).
+    * while: cell by cell, the corrected matrix has the same shape and every monomial that
+      differs from the one at the same position before carried neither `o` nor `m`;
+    * for: `loopCorrection f x g` IS the fold of `RelFix.loopStep` over the cell list
+      `RelFix.loopCells f.mat` (`RelFix.loopCorrection_eq`, by `rfl`), each step visiting the
+      polynomial in place at that moment (row `ell` is rebound during the walk, so that
+      polynomial need not be the one of `f`).  At EVERY visit of the walk — after any prefix
+      `pre` of the cell list, whether or not the walk later raises — the visited polynomial is
+      rewritten in place and every monomial that changes carried neither `o` nor `m`. -/
+theorem corrections_never_touch_shared_constants (r f : Relation) (h : r.WF)
+    (hf : Relation.fixpoint r = .ok f) :
+    (∀ (g : DG.Graph) (f' : Relation) (g' : DG.Graph),
+      Relation.whileCorrection f g = .ok (f', g') →
+      ∀ i j, (Matrix.get f'.mat i j).length = (Matrix.get f.mat i j).length ∧
+        ∀ k (hk : k < (Matrix.get f.mat i j).length) (hk' : k < (Matrix.get f'.mat i j).length),
+          (Matrix.get f'.mat i j)[k] ≠ (Matrix.get f.mat i j)[k] →
+            (Matrix.get f.mat i j)[k].scalar ≠ .o ∧ (Matrix.get f.mat i j)[k].scalar ≠ .m) ∧
+    (∀ (x : String) (g : DG.Graph), x ∈ f.vars →
+      ∀ (pre post : List (Nat × Nat)) (i j : Nat),
+        RelFix.loopCells f.mat = pre ++ (i, j) :: post →
+      ∀ (mat : Matrix) (g1 : DG.Graph),
+        pre.foldlM (RelFix.loopStep (f.vars.idxOf x)) (f.mat, g) = .ok (mat, g1) →
+      ∀ (p' e' : Poly) (g2 : DG.Graph),
+        Relation.loopFixCell (i == j) (Matrix.get mat i j) (Matrix.get mat (f.vars.idxOf x) j) g1 =
+          .ok (p', e', g2) →
+        p'.length = (Matrix.get mat i j).length ∧
+        ∀ k (hk : k < (Matrix.get mat i j).length) (hk' : k < p'.length),
+          p'[k] ≠ (Matrix.get mat i j)[k] →
+            (Matrix.get mat i j)[k].scalar ≠ .o ∧ (Matrix.get mat i j)[k].scalar ≠ .m) := by
+  obtain ⟨hv, hw, _, hd⟩ := WriteSet.fixpoint_cells r f h hf
+  refine ⟨fun g f' g' hc i j => WriteSet.whileCorrection_spares f f' g g' hc i j, ?_⟩
+  intro x g hx pre post i j hsplit mat g1 hpre p' e' g2 hcell
+  exact WriteSet.loopWalk_spares (n := f.vars.length) f.mat
+    ⟨RelFix.wf_sq hw, fun a ha => hd a (hv ▸ ha)⟩ (f.vars.idxOf x) (List.idxOf_lt_length_of_mem hx)
+    g pre post i j hsplit mat g1 hpre p' e' g2 hcell
+
+-- non-vacuity on the fixpoint above: the while correction succeeds and rewrites `p` monomials …
+example : ∃ f' g', Relation.whileCorrection fEx [] = .ok (f', g') ∧
+    Matrix.get f'.mat 0 0 = [⟨.m, []⟩, ⟨.i, [(0, 0), (2, 1)]⟩, ⟨.i, [(1, 0), (2, 1)]⟩] :=
+  ⟨_, _, by rfl, by rfl⟩
+-- … and the for walk reaches the diagonal cell (1,1) after the prefix [(0,0),(0,1),(1,0)], where
+-- cell (0,0) has been rewritten and then rebound, and rewrites its two `p` monomials
+example : RelFix.loopCells fEx.mat = [(0, 0), (0, 1), (1, 0)] ++ (1, 1) :: [] := by rfl
+example : ∃ mat g1, [(0, 0), (0, 1), (1, 0)].foldlM (RelFix.loopStep (fEx.vars.idxOf "x"))
+      (fEx.mat, []) = .ok (mat, g1) ∧
+    Matrix.get mat 0 0 = [⟨.m, []⟩, ⟨.i, [(0, 0), (2, 1)]⟩, ⟨.i, [(1, 0), (2, 1)]⟩, ⟨.p, [(2, 1)]⟩] ∧
+    ∃ e' g2, Relation.loopFixCell true (Matrix.get mat 1 1) (Matrix.get mat 0 1) g1 =
+      .ok ([⟨.m, []⟩, ⟨.i, [(0, 0), (2, 1)]⟩, ⟨.i, [(1, 0), (2, 1)]⟩], e', g2) :=
+  ⟨_, _, by rfl, by rfl, _, _, by rfl⟩
+
 end Mwp.Props.C13
